@@ -1049,12 +1049,12 @@ func (l *lexer) scanComment() bool {
 	for {
 		r, err := l.read()
 		if err != nil {
-			l.comment()
+			l.comment(true)
 			return err == io.EOF
 		}
 		if r == '\n' {
 			l.unread()
-			l.comment()
+			l.comment(true)
 			return true
 		}
 		l.b.WriteRune(r)
@@ -1609,15 +1609,15 @@ func (l *lexer) linebreak() bool {
 	for {
 		r, err := l.read()
 		if err != nil {
-			l.comment()
+			l.comment(hash)
 			return false
 		}
 
 		switch r {
 		case '\n':
 			// <newline>
+			l.comment(hash)
 			hash = false
-			l.comment()
 			if l.heredoc.exists() && !l.scanHeredocs() {
 				return false
 			}
@@ -1663,8 +1663,10 @@ func (l *lexer) linebreak() bool {
 	}
 }
 
-func (l *lexer) comment() {
-	if l.b.Len() != 0 {
+// comment records the comment that has been scanned; hash tells that there
+// is one even if it has no text.
+func (l *lexer) comment(hash bool) {
+	if hash || l.b.Len() != 0 {
 		l.comments = append(l.comments, &ast.Comment{
 			Hash: l.pos,
 			Text: l.b.String(),
